@@ -1,9 +1,11 @@
 """C03 — control flow, variable scoping, captures and includes behave as documented.
 
 M    TLC (MC_Render): the generator/semantics machine; InvWellEnded on the reference semantics itself.
-S→I  every well-formed program of <= MaxTok tokens of three themes (flow: if/elif/else/for/else/break/continue/
+S→I  every well-formed program of <= MaxTok tokens of four themes (flow: if/elif/else/for/else/break/continue/
      loop.*; scope: set/set_global/loop shadowing/include over four-scope shadowing contexts; capture: set-blocks,
-     filter sections, includes inside captures, break inside loops inside captures) is printed as template text
+     filter sections, includes inside captures, break inside loops inside captures; global: every way of assigning
+     x -- set / set_global, expression and block form, with and without a filter -- inside and outside a loop, read
+     inside and after it, one token deeper than the other themes) is printed as template text
      and rendered; oracle = Run(prog, env) of Render.tla: exact output, or error.
 I→S  every render is traced and validated against TeraVM on the real listing."""
 import json
@@ -14,9 +16,9 @@ def run(tier):
     C = vp.Check("C03", tier, "model_checking")
     C.cov["rule"] = ("every complete program of <= MaxTok tokens over the theme's alphabet x every environment of the theme; "
                      "non-trivial = distinct (program, environment) whose reference result is specified (ok or error)")
-    mt = {"flow": 4, "scope": 4, "capture": 4} if tier == "quick" else {"flow": 5, "scope": 5, "capture": 5}
+    mt = {"flow": 4, "scope": 4, "capture": 4, "global": 5} if tier == "quick" else {"flow": 5, "scope": 5, "capture": 5, "global": 6}
     n = 0
-    for theme in ("flow", "scope", "capture"):
+    for theme in ("flow", "scope", "capture", "global"):
         n += render_check.run_theme(C, theme, mt[theme], traced=(tier == "quick"))
     if tier == "thorough":
         for theme in ("flow", "scope", "capture"):
